@@ -1,6 +1,7 @@
 import BddVerif.Props.C15
 import BddVerif.Lemmas.AlgoEq3ExprDriver
 import BddVerif.Lemmas.AlgoEq3ExprString
+import BddVerif.Lemmas.AlgoEq4Support
 #print axioms B.Props.C15.eval_expr_spec
 #print axioms B.Props.C15.eval_expr_canonical
 #print axioms B.Props.C15.eval_expr_none_iff
@@ -29,3 +30,5 @@ import BddVerif.Lemmas.AlgoEq3ExprString
 #print axioms B.AlgoEq3Expr.eval_expression_string_rel
 #print axioms B.AlgoEq3Expr.eval_expression_string_rel_closed
 #print axioms B.AlgoEq3Expr.eval_expression_string_rel_driver
+#print axioms B.AlgoEq4.BooleanExpression_support_set_eq
+#print axioms B.AlgoEq4.BooleanExpression_support_set_mem
